@@ -419,8 +419,12 @@ func (w *ChunkWriter) Close() error {
 	}
 
 	if len(w.leafNodes) == 0 {
-		_, err := w.Writer.Write(emptyRACFile[:])
-		return err
+		if _, err := w.Writer.Write(emptyRACFile[:]); err != nil {
+			w.err = err
+			return err
+		}
+		w.err = errAlreadyClosed
+		return nil
 	}
 	rootNode := gather(w.leafNodes, w.codec.isLong())
 	indexSize := rootNode.calcEncodedSize(0, w.IndexLocation == IndexLocationAtEnd)
